@@ -2894,7 +2894,7 @@ template< size_t L>
 {
    if ((pos >= mLength) || (count == 0))
       return std::string();
-   if ((count == std::string::npos) || (pos + count >= mLength))
+   if (count >= mLength - pos)
       count = mLength - pos;
    return std::string( &mString[ pos], count);
 } // FixedString< L>::substr
@@ -2905,7 +2905,7 @@ template< size_t L>
 {
    if ((pos >= mLength) || (dest == nullptr))
       return 0;
-   if (pos + count >= mLength)
+   if (count >= mLength - pos)
       count = mLength - pos;
    std::memcpy( dest, &mString[ pos], count);
    return count;
@@ -2949,7 +2949,8 @@ template< size_t L>
    size_t FixedString< L>::find( const FixedString& str, size_t pos) const
       noexcept
 {
-   if ((pos + str.mLength > mLength) || (mLength == 0) || (str.mLength == 0))
+   if ((str.mLength > mLength) || (pos > mLength - str.mLength)
+       || (mLength == 0) || (str.mLength == 0))
       return std::string::npos;
    for (size_t idx = pos; idx <= (mLength - str.length()); ++idx)
    {
@@ -2964,7 +2965,8 @@ template< size_t L>
    size_t FixedString< L>::find( const std::string& str, size_t pos) const
       noexcept
 {
-   if ((pos + str.length() > mLength) || (mLength == 0) || str.empty())
+   if ((str.length() > mLength) || (pos > mLength - str.length())
+       || (mLength == 0) || str.empty())
       return std::string::npos;
    for (size_t idx = pos; idx <= (mLength - str.length()); ++idx)
    {
@@ -2979,8 +2981,8 @@ template< size_t L>
    size_t FixedString< L>::find( const char* str, size_t pos, size_t count)
       const noexcept
 {
-   if ((pos + count > mLength) || (mLength == 0) || (count == 0)
-       || (str == nullptr))
+   if ((count > mLength) || (pos > mLength - count) || (mLength == 0)
+       || (count == 0) || (str == nullptr))
       return std::string::npos;
    for (size_t idx = pos; idx <= (mLength - count); ++idx)
    {
@@ -3018,7 +3020,7 @@ template< size_t L>
 {
    if ((mLength == 0) || (str.mLength == 0) || (str.mLength > mLength))
       return std::string::npos;
-   if ((pos == std::string::npos) || (pos + str.mLength > mLength))
+   if (pos > mLength - str.mLength)
       pos = mLength - str.mLength;
    // have to add 1 in the assignment because of the decrement in the condition
    for (size_t idx = pos + 1; idx-- > 0; )
@@ -3036,7 +3038,7 @@ template< size_t L>
 {
    if ((mLength == 0) || str.empty() || (str.length() > mLength))
       return std::string::npos;
-   if ((pos == std::string::npos) || (pos + str.length() > mLength))
+   if (pos > mLength - str.length())
       pos = mLength - str.length();
    // have to add 1 in the assignment because of the decrement in the condition
    for (size_t idx = pos + 1; idx-- > 0; )
@@ -3061,7 +3063,7 @@ template< size_t L>
       count = str_len;
    if (count > mLength)
       return std::string::npos;
-   if ((pos == std::string::npos) || (pos + count > mLength))
+   if (pos > mLength - count)
       pos = mLength - count;
    // have to add 1 in the assignment because of the decrement in the condition
    for (size_t idx = pos + 1; idx-- > 0; )
